@@ -271,6 +271,12 @@ class SimRLock:
     def _is_owned(self):
         return self._owner == _thread.get_ident()
 
+    def _recursion_count(self):
+        return self._count if self._owner == _thread.get_ident() else 0
+
+    def locked(self):
+        return self._count > 0
+
     def _release_save(self):
         state = (self._count, self._owner)
         self._count, self._owner = 0, None
